@@ -1035,6 +1035,15 @@ def slice_to_ascending_slice(
     if key.step is None or key.step > 0:
         return key
 
+    # a negative start or stop is a position relative to the end: normalize it before the arithmetic below
+    if key.start is not None and key.start < 0:
+        if key.start + size < 0:
+            return EMPTY_SLICE # descending from before the first position selects nothing
+        key = slice(key.start + size, key.stop, key.step)
+    if key.stop is not None and key.stop < 0:
+        # a stop before the first position is the same as no stop
+        key = slice(key.start, key.stop + size if key.stop + size >= 0 else None, key.step)
+
     stop = key.start if key.start is None else key.start + 1
 
     if key.step == -1:
